@@ -7,6 +7,9 @@ import (
 	"time"
 )
 
+// the history generator of the C03 stream, shared with the binary-level variant
+var genC03 func(r *rand.Rand, n int, emit Emit)
+
 func init() {
 	all := pipeCfgOpts{true, true, true, true, true, true, true, true, true}
 	base := "a history through the real Listen loop (mock clock) compared with the model at every scrape. "
@@ -349,6 +352,9 @@ func init() {
 		if tier == "thorough" {
 			n = 80000
 		}
+		genC03(r, n, emit)
+	}
+	genC03 = func(r *rand.Rand, n int, emit Emit) {
 		pres := []preFam{{"statsd_exporter_events_total", "c", "The total number of StatsD events seen."}, {"go_goroutines", "g", "Number of goroutines that currently exist."}}
 		names := []string{"x", "x_sum", "x_count", "x_bucket", "statsd_exporter_events_total", "go_goroutines", "y", "y_sum", "a.b", "9z"}
 		keys := []string{"__x", "le", "quantile", "tag1", "é", "a.b", "9k", "t", "_", "__"}
